@@ -20,8 +20,7 @@
    of reference) inside S5's prolog, CR in markup whitespace everywhere -- ONE statement for the whole supported subset:
    parse_render_sem_full_s6; same meaning => same tree whatever the distribution over entities, the prolog and the layout
    (hoist_prolog_insensitive_full_s6); S4 and S5 embed with the same rendering and meaning (s4_in_s6, s5_in_s6), hence
-   so do S1..S3.  What S6 still excludes is listed in the spec files: CR inside comment / PI bodies, '>' inside a literal of
-   a skipped markup declaration, '%' and character references to TAB / LF / CR / '&' / '<' inside entity literals, colons
+   so do S1..S3.  What S6 still excludes is listed in the spec files: CR inside comment / PI bodies (admitted by S7), '%' and character references to TAB / LF / CR / '&' / '<' inside entity literals, colons
    in DOCTYPE / entity names, the CR LF proviso and D15.
    Statements are pinned here (copied verbatim from the proof files by tools/pin_props.py);
    each is re-proved by `exact` and followed by Print Assumptions. *)
